@@ -53,6 +53,18 @@ fn judge_one(entry: &str, input: &[u8], or: &V1Ref, got: &O1, rec: &mut Recorder
     }
 }
 
+/// One call only (the first pass over a history, see `spec::sib::run_v1_two_pass`): the entry
+/// point `which` judged against the oracle.
+pub fn judge_light(input: &[u8], which: u64, rec: &mut Recorder) {
+    let or = v1_ref(input);
+    match (which % 4, std::str::from_utf8(input)) {
+        (1, Ok(s)) => judge_one("str", input, &or, &v1_str(s), rec),
+        (2, Ok(s)) => judge_one("fromstr-header", input, &or, &v1_fromstr_header(s), rec),
+        (3, Ok(s)) => judge_one("fromstr-addr", input, &or, &v1_fromstr_addr(s), rec),
+        _ => judge_one("bytes", input, &or, &v1_bytes(input), rec),
+    }
+}
+
 pub fn judge(input: &[u8], rec: &mut Recorder) {
     let or = v1_ref(input);
     let trivial = match &or {
@@ -114,7 +126,7 @@ impl Monitor for C01 {
             return;
         }
         let input = v1_case(stream, idx, seed);
-        spec::sib::run_v1(&input, idx, 4, |input| judge(input, rec));
+        spec::sib::run_v1_two_pass(&input, idx, 4, |input, light| if light { judge_light(input, idx / 64, rec) } else { judge(input, rec) });
     }
     fn cold_start(&self, rec: &mut Recorder) {
         cold_start_equal(rec, "the four v1 entry points", &cold_inputs(), &|x| format!("{:?} {:?}", v1_bytes(x), std::str::from_utf8(x).ok().map(|s| (v1_str(s), v1_fromstr_header(s), v1_fromstr_addr(s)))));
